@@ -2325,6 +2325,10 @@ class SFTPGlob:
 
         try:
             async for entry in self._fs.scandir(path):
+                # A directory entry is a single path component
+                if b'/' in cast(bytes, entry.filename):
+                    continue
+
                 entries.append(entry)
                 yield entry
         except (SFTPNoSuchFile, SFTPPermissionDenied, SFTPNoSuchPath):
